@@ -14,8 +14,10 @@ def layouts(r, coin, blocks, k, thorough):
     c = base('ref').simple_layout(blocks); yield c
     # 2 random permutation across several files with garbage padding, unindexed decoy blocks, odd file numbers and name paddings
     c = base('perm'); files = r.sample(BIGFILES, r.randrange(1, 5)); order = list(range(n)); r.shuffle(order); offs = {}
-    for h in order:
-        f = r.choice(files)
+    forced = [2**64 - 1] if k % 3 == 0 else [2**64 - 128, 2**64 - 129] if k % 3 == 1 else []      # the largest file numbers a VarInt can carry
+    files += [f for f in forced if f not in files]
+    for j, h in enumerate(order):
+        f = forced[j] if j < len(forced) else r.choice(files)
         if r.random() < 0.3: c.put_block(f, gen.random_chain(r, coin, 1)[0].raw, pad=gen.rb(r, r.randrange(0, 50)))      # unindexed decoy block
         offs[h] = (f, c.put_block(f, blocks[h].raw, pad=gen.rb(r, r.choice([0, 1, 7, 300]))))
     for h in range(n): c.add_record(blocks[h], h, *offs[h])
@@ -49,6 +51,11 @@ def layouts(r, coin, blocks, k, thorough):
         offs[h] = (fno, c.put_block(fno, blocks[h].raw))
     for h in range(n): c.add_record(blocks[h], h, *offs[h])
     yield c
+    # 6 window: the index holds the same blocks at heights S..S+n-1 only (no record below S) and the run starts at S; blocks scattered over two files
+    S = r.choice([1, 2, 5, 1000]); c = base('window'); c.start = S; offs = {}
+    for h in sorted(range(n), key=lambda _: r.random()): offs[h] = (h % 2, c.put_block(h % 2, blocks[h].raw, pad=gen.rb(r, r.randrange(0, 9))))
+    for h in range(n): c.add_record(blocks[h], S + h, *offs[h])
+    c.meta['own_group'] = True; yield c
     # 5 interleaved: equal-sized blocks at matching slots of two files, heights alternating between the files (a remembered position
     #   not tied to a file would skip the seek)
     c = base('interleaved'); offs = {}
@@ -68,7 +75,7 @@ def equal_size_chain(r, coin, n):
 
 def explore(ck):
     r = ck.rng; quick = ck.tier == 'quick'
-    ck.rule = ('each logical chain is materialised in 5 physical layouts (reference; random permutation over 1-4 files numbered from {0,1,127,128,16383,16384,99999,100000,2^32,2^32+1,2^64-1} '
+    ck.rule = ('each logical chain is materialised in 6 physical layouts (the sixth: the index holds heights S..S+n-1 only, run with --start S) (reference; random permutation over 1-4 files numbered from {0,1,127,128,16383,16384,99999,100000,2^32,2^32+1,2^64-1; 2^64-1 / 2^64-128 / 2^64-129 forced in two of three chains} '
                'with garbage padding, unindexed decoy blocks, extra LevelDB keys f/l/F/R/a/c, extra files and 4 name paddings; sparse offset beyond 4 GiB with a decoy at the offset mod 2^32; '
                'file number >= 2^32 with a decoy in the file numbered mod 2^32; equal-sized blocks interleaved over two files); all layouts must give the csvdump output of the model of the reference. '
                'Non-trivial: the layout is not the reference; distinct by (chain, layout).')
@@ -78,7 +85,8 @@ def explore(ck):
         coin = gen.ALL_COINS[k % 8]
         blocks = equal_size_chain(r, coin, r.randrange(4, 8)) if k % 2 == 0 else gen.random_chain(r, coin, r.randrange(3, 7), max_tx=3)
         for c in layouts(r, coin, blocks, k, not quick):
-            c.meta['cbs'] = ['csv']; c.meta['group'] = k; cases.append(c); groups.setdefault(k, []).append(c.id)
+            c.meta['cbs'] = ['csv']; c.meta['group'] = k; cases.append(c)
+            if not c.meta.get('own_group'): groups.setdefault(k, []).append(c.id)
     models, results = core.compare_cases(ck, cases, lambda c: ['csv'], nontrivial=lambda c, m: (c.meta['group'], c.meta['layout']) if c.meta['layout'] != 'ref' else None,
                                          sample=lambda c, m: dict(case=c.id, coin=c.coin, layout=c.meta['layout'], files={str(n): [(o, len(d)) for o, d in e] for n, e in c.files.items()},
                                                                   names=c.name_of, records=len(c.records), model_status=m['status']))
